@@ -95,6 +95,18 @@ theorem qe_representations_agree_grid_unit {K} [Field K] [LinearOrder K] [IsStri
   · rw [e]; exact mul_le_mul_of_nonneg_right h1 hpos.le
   · rw [e]; exact mul_le_mul_of_nonneg_right h2 hpos.le
 
+/-- non-vacuity of `qe_representations_agree_grid_unit`: a flat 1/2 spectrum tabulated in nanometres on [400, 800], asked at
+0.5 and 0.7 micrometres -/
+example : ∃ a b c, (QE.scalar (1 / 2 : ℚ)).asArray 2 = some a ∧ (QE.vector 2 fun _ => (1 / 2 : ℚ)).asArray 2 = some b ∧
+    (QE.spectrumObj [(400, 1 / 2), (600, 1 / 2), (800, (1 / 2 : ℚ))] .nm (fun l => if l = 0 then 1 / 2 else 7 / 10) .um).asArray 2 = some c ∧
+    ∀ i j, collectCharge 2 (fun _ _ _ => (3 : ℚ)) a i j = collectCharge 2 (fun _ _ _ => 3) b i j ∧
+      collectCharge 2 (fun _ _ _ => (3 : ℚ)) b i j = collectCharge 2 (fun _ _ _ => 3) c i j :=
+  qe_representations_agree_grid_unit (K := ℚ) 2 _ (1 / 2) _ _ .nm .um _ 400 800 (fun _ _ => rfl)
+    (by simp) rfl rfl (by simp) (by
+      intro l hl
+      have : l = 0 ∨ l = 1 := by omega
+      rcases this with rfl | rfl <;> norm_num [Gen.waveTo])
+
 /-- a Spectrum efficiency, flat or not, gives exactly the electrons of the vector of its own samples at the call's wavelengths
 (`qe_asarray` replaces the Spectrum by `Spectrum.sample(wave, waveunit)`), in every pair of units -/
 theorem qe_spectrum_equals_its_samples {K} [Field K] [LinearOrder K] (nw : Nat) (img : Nat → Int → Int → K) (grid : List (K × K))
@@ -500,6 +512,14 @@ theorem adc_le_at_cap [IsStrictOrderedRing K] (c : K) (g : List K)
   apply Int.floor_mono
   exact hmono _ _ (le_min hx hc) (min_le_right _ _) (le_refl _)
 
+/-- non-vacuity of `adc_le_at_cap`: the compressive curve `2x − x²/64` with capacity 64 never reads more than `⌊gain(64)⌋ = 64` DN -/
+example (x : ℚ) (hx : 0 ≤ x) : adcValue Int.floor (some (64 : ℚ)) [-(1 / 64 : ℚ), 2] x ≤ 64 := by
+  have h := adc_le_at_cap (K := ℚ) 64 [-(1 / 64 : ℚ), 2] (fun a b _ hab hb => by
+    simp only [polyGain, npow, List.length_cons, List.length_nil]
+    nlinarith [mul_nonneg (sub_nonneg.mpr hab) (sub_nonneg.mpr (by linarith : a + b ≤ 128))]) (by norm_num) hx
+  have e : max 0 ⌊polyGain [-(1 / 64 : ℚ), 2] (64 : ℚ)⌋ = 64 := by norm_num [polyGain, npow]
+  rw [e] at h; exact h
+
 /-- in particular for gain curves with non-negative coefficients -/
 theorem adc_monotone_nonneg_coeffs [IsStrictOrderedRing K] (cap : Option K) (g : List K) (hg : ∀ c ∈ g, 0 ≤ c) (hcap : ∀ c, cap = some c → 0 ≤ c)
     {x y : K} (hx : 0 ≤ x) (hxy : x ≤ y) :
@@ -546,6 +566,12 @@ theorem adc_warns_iff_exceeds (warn : Bool) (cap : Option K) (img : Img K) :
 theorem adc_clip_cases (c : K) (g : List K) (x : K) :
     adcValue Int.floor (some c) g x = if c < x then adcValue Int.floor none g c else adcValue Int.floor none g x := by
   by_cases h : c < x <;> simp only [adcValue, clipSat, h, if_true, if_false] <;> rfl
+
+/-- saturation: every count above the capacity is digitised like the capacity itself — all saturated pixels read the same DN -/
+theorem adc_saturated_pixels_agree (c : K) (g : List K) {x y : K} (hx : c < x) (hy : c < y) :
+    adcValue Int.floor (some c) g x = adcValue Int.floor (some c) g y ∧
+    adcValue Int.floor (some c) g x = adcValue Int.floor none g c := by
+  rw [adc_clip_cases c g x, adc_clip_cases c g y, if_pos hx, if_pos hy]; exact ⟨rfl, rfl⟩
 
 end adc
 
